@@ -26,6 +26,9 @@ def _kernel(name):
 
 
 def norm(t, ord=None, dim=None, keepdim=False, **kw):
+    import torch
+    if isinstance(t, (torch.GramOnly, torch.RowComb)):
+        return t.norm(2 if ord is None else ord, dim, keepdim)
     if ord not in (None, 2, "fro", 2.0):
         if ord == 1 and (t.dim() == 1 or dim is not None):
             return t.abs().sum(dim, keepdim)
@@ -68,6 +71,46 @@ def _orthonormal_cols(U, m, k):
             _assume_eq(_sum([U[i][a] * U[i][b] for i in range(m)]), 1 if a == b else 0)
 
 
+def _hint_decomp(S, descending, what):
+    """Spectral decomposition of a symmetric matrix S (list of rows) from the harness-provided eigenbasis hint.
+
+    The harness parametrises its input domain by a spectral factorisation G = Q diag(d) Q^T (Q a rationally
+    parametrised orthogonal matrix, see harness/common.py).  For any symmetric matrix that is diagonal in that
+    basis (G itself, G / s^2, G + eps I, ...) the decomposition is then known in closed form; the stub CHECKS by
+    solver that Q^T S Q is diagonal (otherwise it falls back to the fresh-variable contract), sorts the eigenvalues
+    by forking comparisons and optionally flips column signs by free choice (KERNELS['eig_signs'])."""
+    import torch
+    hint = torch.KERNELS.get("eigbasis")
+    if hint is None:
+        return None
+    Q = hint["Q"]
+    n = len(S)
+    if len(Q) != n:
+        return None
+    QtS = _matmul_l(_tr_l(Q), S)
+    D = _matmul_l(QtS, Q)
+    off = [D[i][j].eqz(0) for i in range(n) for j in range(n) if i != j]
+    if off:
+        f = z3.simplify(z3.And(*off))
+        if not z3.is_true(f) and symx.space().check(z3.Not(f)) != "unsat":
+            return None
+    d = [D[i][i] for i in range(n)]
+    # sort (insertion, forking)
+    order = []
+    for i in range(n):
+        k = len(order)
+        while k > 0 and (bool(d[i] > d[order[k - 1]]) if descending else bool(d[i] < d[order[k - 1]])):
+            k -= 1
+        order.insert(k, i)
+    cols = [[Q[r][c] for r in range(n)] for c in order]
+    if torch.KERNELS.get("eig_signs"):
+        for c in range(n):
+            if symx.choice(2, f"{what}_sign") == 1:
+                cols[c] = [-x for x in cols[c]]
+    U = [[cols[c][r] for c in range(n)] for r in range(n)]
+    return [d[i] for i in order], U, order
+
+
 def _svd_contract(A, legacy=False):
     if A.dim() != 2:
         raise ShimUnsupported("batched svd")
@@ -82,6 +125,13 @@ def _svd_contract(A, legacy=False):
         sym = z3.And(*[G[i][j].eqz(G[j][i]) for i in range(m) for j in range(i + 1, m)]) if m > 1 else z3.BoolVal(True)
         if not z3.is_true(z3.simplify(sym)) and symx.space().check(z3.Not(sym)) != "unsat":
             raise ShimUnsupported("torch.svd stub needs a symmetric argument")
+        hd = _hint_decomp(G, True, "svd_legacy")
+        if hd is not None:
+            d, U, _ = hd
+            Ut = T._make([U[i][j] for i in range(m) for j in range(m)], (m, m), A.dtype)
+            St = T._make(d, (m,), A.dtype)
+            log("kernel", "svd_legacy", A, (Ut, St), "hint")
+            return Ut, St, _Poison("V of torch.svd")
         k = m
         U = _fresh_mat("svU", m, k)
         S = [symx.fresh(f"svS{j}") for j in range(k)]
@@ -97,6 +147,21 @@ def _svd_contract(A, legacy=False):
         return Ut, St, _Poison("V of torch.svd")
     k = min(m, n)
     G = _gram(A)
+    hd = _hint_decomp(G, True, "svd") if k == m else None
+    if hd is not None:
+        import torch
+        d, U, order = hd
+        sig = torch.KERNELS["eigbasis"].get("sigma")
+        S = []
+        for pos, i in enumerate(order):
+            if sig is not None and symx.space().check(z3.Not((sig[i] * sig[i]).eqz(d[pos]))) == "unsat":
+                S.append(sig[i])
+            else:
+                S.append(d[pos].sqrt())
+        Ut = T._make([U[i][j] for i in range(m) for j in range(m)], (m, m), A.dtype)
+        St = T._make(S, (m,), A.dtype)
+        log("kernel", "svd", A, (Ut, St), "hint")
+        return Ut, St, _Poison("Vh of linalg.svd")
     U = _fresh_mat("U", m, k)
     S = [symx.fresh(f"S{j}") for j in range(k)]
     _orthonormal_cols(U, m, k)
@@ -187,8 +252,23 @@ def pinv(A, rcond=None, hermitian=False, **kw):
         res = T._make([R(0)] * (m * n), (n, m), A.dtype)
         log("kernel", "pinv", A, res, "zero")
         return res
-    # full row rank (m <= n): A^T (A A^T)^-1 ; full column rank: (A^T A)^-1 A^T ; decided by the determinant
-    if m <= n:
+    if m == n:
+        # symmetric argument diagonal in the harness' eigenbasis: pinv(Q diag(d) Q^T) = Q diag(d^+) Q^T
+        symm = all(symx._same(M[i][j].n, M[j][i].n) and symx._same(M[i][j].d, M[j][i].d) for i in range(m) for j in range(i))
+        hd = _hint_decomp(M, True, "pinv") if symm else None
+        if hd is not None:
+            d, U, _ = hd
+            dp = [(R(1) / x) if bool(x != 0) else R(0) for x in d]
+            X = [[_sum([U[i][c] * dp[c] * U[j][c] for c in range(m)]) for j in range(m)] for i in range(m)]
+            res = T._make([x for r in X for x in r], (m, m), A.dtype)
+            log("kernel", "pinv", A, res, "eigbasis")
+            return res
+        d = _det(M)
+        if bool(d != 0):
+            res = T._make([x / d for r in _adj(M) for x in r], (m, m), A.dtype)
+            log("kernel", "pinv", A, res, "inverse")
+            return res
+    elif m < n:
         AAt = _matmul_l(M, _tr_l(M))
         d = _det(AAt)
         if bool(d != 0):
@@ -257,6 +337,13 @@ def eigh(M, UPLO="L"):
         S = [[A[max(i, j)][min(i, j)] for j in range(n)] for i in range(n)]
     if any(isinstance(x, Sp) for r in S for x in r):
         raise LinAlgError("linalg.eigh: The algorithm failed to converge because the input matrix contained non-finite values.")
+    hd = _hint_decomp(S, False, "eigh")
+    if hd is not None:
+        d, U, _ = hd
+        L = T._make(d, (n,), M.dtype)
+        Vt = T._make([U[i][j] for i in range(n) for j in range(n)], (n, n), M.dtype)
+        log("kernel", "eigh", M, (L, Vt), "hint")
+        return _core._NT("eigh", L, Vt)
     lam = [symx.fresh(f"lam{i}") for i in range(n)]
     V = _fresh_mat("V", n, n)
     _orthonormal_cols(V, n, n)
